@@ -368,6 +368,10 @@ def bool_fn_table(body, max_atoms=8):
         elif t[0] == "call":
             for a in t[2]:
                 note(a)
+        elif t[0] == "bin" and t[1] in ("Eq", "Ne", "Lt", "Le", "Gt", "Ge"):
+            s = show(t, -9)
+            if s not in atoms:
+                atoms.append(s)
         elif t[0] == "bin":
             note(t[2])
             note(t[3])
@@ -376,8 +380,18 @@ def bool_fn_table(body, max_atoms=8):
             if s not in atoms:
                 atoms.append(s)
 
+    sw_terms = {}
     for bi in sorted(body.reachable()):
         t = body.term(bi)
+        if t["k"] == "switch" and t.get("dty") != "bool":
+            # multi-way switch on an integer: one atom "<term> == v" per listed value
+            d = prov.operand(t["d"])
+            for v, _ in t["ts"]:
+                s = "%s == %s" % (show(d, -9), v)
+                if s not in atoms:
+                    atoms.append(s)
+                sw_terms.setdefault(show(d, -9), []).append(int(v))
+            continue
         if t["k"] == "switch":
             note(prov.operand(t["d"]))
         if t["k"] == "call" and t.get("dest") and t["dest"]["l"] == 0 and not t["dest"]["p"]:
@@ -398,6 +412,8 @@ def bool_fn_table(body, max_atoms=8):
         if t[0] == "call" and re.search(r"ops::Not>::not$", t[1]):
             x = ev(t[2][0], val)
             return None if x is None else (not x)
+        if t[0] == "bin" and t[1] in ("Eq", "Ne", "Lt", "Le", "Gt", "Ge") and show(t, -9) in val:
+            return val[show(t, -9)]
         if t[0] == "bin" and t[1] in ("BitAnd", "BitOr", "Eq", "Ne", "BitXor"):
             a, b = ev(t[2], val), ev(t[3], val)
             if a is None or b is None:
@@ -427,6 +443,14 @@ def bool_fn_table(body, max_atoms=8):
                     res = None
                     break
                 cur = t["t"]
+            elif k == "switch" and t.get("dty") != "bool":
+                ds = show(prov.operand(t["d"]), -9)
+                hit = [int(v) for v, _ in t["ts"] if val.get("%s == %s" % (ds, v))]
+                if len(hit) > 1:
+                    res = "inconsistent"
+                    break
+                tm = {int(a): b for a, b in t["ts"]}
+                cur = tm[hit[0]] if hit else t["o"]
             elif k == "switch":
                 x = ev(prov.operand(t["d"]), val)
                 if x is None:
